@@ -4,7 +4,7 @@ CONSTANTS
  Q = 3
  Gg = 2
  Vars = {"two", "n", "opt"}
- Ns = {2, 3}
+ Ns = {2}
  MsgVecs <- MV7
  CCoins <- AllZq
  SCoins <- C1a
